@@ -58,9 +58,11 @@ func (c *Check) noHiddenSessionState() {
 				case *ssa.Call:
 					if bi, ok := x.Call.Value.(*ssa.Builtin); ok && (bi.Name() == "delete" || bi.Name() == "clear") && len(x.Call.Args) > 0 {
 						g = globalOf(x.Call.Args[0])
+					} else {
+						g = syncMutator(x)
 					}
 				}
-				if g == nil || !inModule(g.Pkg.Pkg.Path()) {
+				if g == nil || g.Pkg == nil || !inModule(g.Pkg.Pkg.Path()) {
 					continue
 				}
 				hits = append(hits, hit{g.Pkg.Pkg.Name() + "." + g.Name(), f, ins})
